@@ -18,7 +18,7 @@ import sys, os, json, subprocess, re, shutil
 VERIF = os.path.dirname(os.path.dirname(os.path.abspath(__file__)))
 TLCW = os.path.join(VERIF, "bin", "tlcw")   # tlc with a large main-thread stack
 SPEC = os.path.join(VERIF, "spec")
-SIM = os.path.join(VERIF, "harness", "target", "debug", "sim")
+SIM = os.environ.get("H2SIM") or os.path.join(VERIF, "harness", "target", "debug", "sim")   # H2SIM: another build of the simulator
 RESET_DUR_MS = 400      # reset_stream_duration of the replayed server; a model Tick sleeps TICK_MS (> RESET_DUR_MS)
 TICK_MS = 450
 NPAR = 8                # simulator processes run side by side (a Tick really sleeps)
